@@ -426,7 +426,7 @@ func TestC11(t *testing.T) {
 	}
 
 	mp := c11Map.On(col, "rapid: maps of 0..8 string keys as map[string]any, map[string]int and ordered YAML maps, iterated by for and tablerow; oracle: the visited [key, value] pairs are exactly the map's entries as a multiset, forloop index/length consistent. Non-trivial: >= 2 entries; distinct by keys+representation+tag", false)
-	col.Rapid(mp.Sub, env.PerShard(env.Pick(4000, 200000)), func(t *rapid.T) {
+	col.Rapid(mp.Sub, env.PerShard(env.Pick(40000, 400000)), func(t *rapid.T) {
 		keys := rapid.SliceOfNDistinct(rapid.StringMatching(`[a-z]{1,3}`), 0, 8, func(s string) string { return s }).Draw(t, "keys")
 		c := &c11MapCase{Keys: keys, Rep: rapid.SampledFrom([]string{"", "typed", "mapslice"}).Draw(t, "rep"), Tag: rapid.SampledFrom([]string{"for", "tablerow"}).Draw(t, "tag")}
 		if c.Rep == "typed" && len(keys) == 0 {
@@ -441,7 +441,7 @@ func TestC11(t *testing.T) {
 	prof := hx.FullProfile()
 	prof.Tablerow, prof.Capture, prof.Comment, prof.Raw, prof.Case = true, false, false, false, false
 	prof.MaxNodes = 16
-	col.Rapid(nest.Sub, env.PerShard(env.Pick(20000, 1000000)), func(t *rapid.T) {
+	col.Rapid(nest.Sub, env.PerShard(env.Pick(150000, 1500000)), func(t *rapid.T) {
 		p := hx.GenProgram(t, prof)
 		for _, name := range []string{"a", "w"} {
 			// typed slice / fixed array / generic; a Go range value is only promised to work as a
